@@ -4,7 +4,7 @@
    functions of the operands, which is what pickling transports); the cached-call pattern with fallback is
    transparent (LRU.v).  The round trip itself (pickle -> fresh interpreter) is observed by the harness. *)
 From Coq Require Import String List.
-From DX Require Import Base GeneratedClassTable ClassTableChecks LRU.
+From DX Require Import Base GeneratedClassTable ClassTableChecks ClassTableState LRU.
 
 Theorem C16_state_free_table : state_free_b = true.
 Proof. exact state_free_table. Qed.
